@@ -91,7 +91,7 @@ def judge_msg(case):
         return False, "%s message of code %d (%s) was accepted" % (m["cls"], m["code"], m.get("note"))
     if m["err"] and foot:
         return False, "rejected message of code %d left effects %s" % (m["code"], foot)
-    if m["code"] > 7 and not m["err"] and (foot or m["cls"] != "result"):
+    if m["code"] > 7 and foot:
         return False, "message with unknown code %d was handled" % m["code"]
     allowed = {"reply"} | ({"feed"} if m["code"] == 2 else set()) | ({"pool"} if m["code"] == 3 else set()) \
         | ({"fetch"} if m["code"] == 1 else set())
